@@ -3,15 +3,21 @@
    simulation walks) and one JSON line per explored transition. *)
 EXTENDS HugrStore, Json
 CONSTANTS Stores,         \* {1} : only store A evolves;  {1, 2} : both
-          AllowInsert, MaxHist
+          AllowInsert, MaxHist,
+          StopAfterInsert, \* TRUE: insert_hugr ends the behaviour (keeps the two-store product finite and small)
+          Counts          \* output counts requested by add_node (NoCount = none given)
 VARIABLE hist
 OffsetsAll == {-1, 0, 1}
 OffsetsTwo == {-1, 0}
+CountsAll == {NoCount, 0, 2}
+CountsOne == {NoCount}
+CountsTwo == {NoCount, 2}
 Ev(a, i, x) == [a |-> a, i |-> i] @@ x
 MCInit == Init /\ hist = <<>>
 MCNext ==
   /\ Len(hist) < MaxHist
-  /\ \/ \E i \in Stores, p \in 0..MaxNodes, o \in OpToks, cnt \in {NoCount, 0, 2}, m \in MetaToks :
+  /\ (StopAfterInsert => res.k # "mapping")
+  /\ \/ \E i \in Stores, p \in 0..MaxNodes, o \in OpToks, cnt \in Counts, m \in MetaToks :
           AddNode(i, p, o, cnt, m) /\ hist' = Append(hist, Ev("AddNode", i, [p |-> p, o |-> o, cnt |-> cnt, m |-> m]))
      \/ \E i \in Stores, sn, dn \in 0..MaxNodes, so, do \in Offsets :
           \/ AddLink(i, sn, so, dn, do) /\ hist' = Append(hist, Ev("AddLink", i, [sn |-> sn, so |-> so, dn |-> dn, do |-> do]))
@@ -24,5 +30,30 @@ MCNext ==
      \/ AllowInsert /\ \E p \in 0..MaxNodes : InsertHugr(p) /\ hist' = Append(hist, Ev("InsertHugr", 1, [p |-> p]))
 View == st
 Emit == PrintT(ToJson([hist |-> hist', res |-> res', obs |-> Obs']))
-MCStepLaws == [][StepLaws]_<<vars, hist>>
+(* one line per distinct state reached by insert_hugr; SampleK > 1 keeps every K-th of them *)
+CONSTANT SampleK
+EmitInsertState == (res.k = "mapping" /\ TLCGet("distinct") % SampleK = 0) => PrintT(ToJson([hist |-> hist, res |-> res, obs |-> Obs]))
+(* one line per distinct state (BFS: with the first path that reaches it) *)
+EmitState == hist = <<>> \/ PrintT(ToJson([hist |-> hist, res |-> res, obs |-> Obs]))
+(* simulation: one line per step of the walk, carrying only the last event *)
+(* (as an INVARIANT: in simulation mode TLC evaluates invariants only on the states of the walk itself, whereas
+   an ACTION_CONSTRAINT is evaluated on every candidate successor) *)
+EmitStep == hist = <<>> \/ PrintT(ToJson([n |-> Len(hist), e |-> hist[Len(hist)], res |-> res, obs |-> Obs]))
+(* the action laws, evaluated for the action actually taken (named by the last history entry) *)
+LastLaw ==
+  LET e == hist'[Len(hist')] i == e.i IN
+  CASE e.a = "DeleteLink" ->
+         \A l \in AllLinks : LinkCount(st'[i], l) = LinkCount(st[i], l) - (IF l = Link(e.sn, e.so, e.dn, e.do) /\ LinkCount(st[i], l) > 0 THEN 1 ELSE 0)
+    [] e.a = "AddLink" ->
+         \A l \in AllLinks : LinkCount(st'[i], l) = LinkCount(st[i], l) + (IF l = Link(e.sn, e.so, e.dn, e.do) THEN 1 ELSE 0)
+    [] e.a = "AddOrderLink" ->
+         \A l \in AllLinks : LinkCount(st'[i], l) = (IF l = Link(e.sn, -1, e.dn, -1) /\ LinkCount(st[i], l) = 0 THEN 1 ELSE LinkCount(st[i], l))
+    [] e.a = "DeleteNode" ->
+         /\ st'[i].live = st[i].live \ {e.n}
+         /\ \A l \in AllLinks : LinkCount(st'[i], l) = (IF l[1] = e.n \/ l[3] = e.n THEN 0 ELSE LinkCount(st[i], l))
+         /\ \A m \in st'[i].live : st'[i].op[m] = st[i].op[m] /\ st'[i].meta[m] = st[i].meta[m] /\ st'[i].parent[m] = st[i].parent[m]
+    [] e.a = "InsertHugr" -> InsertIsIso
+    [] e.a = "TouchDead" -> st' = st
+    [] OTHER -> \A j \in {1, 2} : j # i => st'[j] = st[j]
+MCStepLaws == [][LastLaw]_<<vars, hist>>
 =============================================================================
